@@ -239,19 +239,28 @@ type fakeHost struct {
 	addrs    []ma.Multiaddr
 	hmu      sync.Mutex
 	handlers map[protocol.ID]network.StreamHandler
+
+	// what the service under test sees: the same store and network, with a harness-owned
+	// scheduling point after every call about a peer (sched_test.go)
+	calls *callSched
+	idps  *idPeerstore
+	idnet *idNetwork
 }
 
 func newFakeHost(id peer.ID, ps *psWrap, bus event.Bus, addrs []ma.Multiaddr) *fakeHost {
 	h := &fakeHost{id: id, ps: ps, bus: bus, mux: msmux.NewMultistreamMuxer[protocol.ID](), addrs: addrs,
 		handlers: map[protocol.ID]network.StreamHandler{}}
 	h.net = &fakeNet{local: id, ps: ps}
+	h.calls = &callSched{}
+	h.idps = &idPeerstore{psWrap: ps, s: h.calls}
+	h.idnet = &idNetwork{fakeNet: h.net, s: h.calls}
 	return h
 }
 
 func (h *fakeHost) ID() peer.ID                    { return h.id }
-func (h *fakeHost) Peerstore() peerstore.Peerstore { return h.ps }
+func (h *fakeHost) Peerstore() peerstore.Peerstore { return h.idps }
 func (h *fakeHost) Addrs() []ma.Multiaddr          { return append([]ma.Multiaddr(nil), h.addrs...) }
-func (h *fakeHost) Network() network.Network       { return h.net }
+func (h *fakeHost) Network() network.Network       { return h.idnet }
 func (h *fakeHost) Mux() protocol.Switch           { return h.mux }
 func (h *fakeHost) Connect(context.Context, peer.AddrInfo) error {
 	return errors.New("fakehost: Connect not supported")
